@@ -363,6 +363,29 @@ class _Spy:
         return False
 
 
+class _Missing(dict):
+    def __missing__(self, key):
+        return "7"
+
+
+def value_map(cl):
+    """the caller's value map: a dict — one call in three a dict of another kind (a defaultdict that invents values for keys it
+    does not have, a subclass with __missing__, an OrderedDict).  'Supplied' means: is a key of the map."""
+    import collections
+    import zlib
+    h = zlib.crc32(json.dumps(cl, sort_keys=True, default=str).encode()) % 12
+    v = dict(cl["vals"])
+    if h == 0:
+        return collections.defaultdict(str, v)
+    if h == 1:
+        return collections.defaultdict(lambda: "1", v)
+    if h == 2:
+        return _Missing(v)
+    if h == 3:
+        return collections.OrderedDict(v)
+    return v
+
+
 _dec_cache: dict = {}
 
 
@@ -541,12 +564,15 @@ class C10Full(core.PropBase):
         outs = []
         for cl in case["calls"]:
             if cl["mode"] == "client":
+                given = value_map(cl)
                 try:
-                    r = preprocess_job_parameters(job_template=jt_, job_parameter_values=dict(cl["vals"]), job_template_dir=Path(cl["dir"]),
+                    r = preprocess_job_parameters(job_template=jt_, job_parameter_values=given, job_template_dir=Path(cl["dir"]),
                                                   current_working_dir=Path(cl["cwd"]), allow_job_template_dir_walk_up=cl["walk"], environment_templates=list(ets))
                     outs.append(["ok", sorted([n, pv.type.value, pv.value] for n, pv in r.items())])
                 except BaseException as e:  # noqa: BLE001
                     outs.append(["raise", type(e).__name__])
+                if dict.items(given) != dict(cl["vals"]).items() or list(dict.keys(given)) != list(cl["vals"]):
+                    outs[-1] = ["raise", "VALUE-MAP-MODIFIED"]
             else:
                 pv = {k: ParameterValue(type=ParameterValueType(types.get(k, "STRING")), value=v) for k, v in cl["vals"].items()}
                 with _Spy() as spy:
